@@ -7,6 +7,7 @@ import (
 	"go/types"
 	"os"
 	"regexp"
+	"sort"
 	"strconv"
 	"strings"
 
@@ -28,6 +29,7 @@ type recorder struct {
 	startFresh  int
 	fn          *ssa.Function
 	depth       int
+	calls       map[string]*types.Signature // contract calls made by the body (by short name)
 }
 
 func (st *State) noteMod(key string) {
@@ -751,6 +753,13 @@ func (x *Exec) runBlock(st *State, b *ssa.BasicBlock, prev *ssa.BasicBlock) []Ou
 			spec = con.Loops[ld.ordinal]
 		}
 		fromBack := prev != nil && ld.body[prev]
+		if spec == nil && !isTop && !constBoundLoop(ld) {
+			// a loop of a helper executed in place that has no annotation and no constant bound: cut with the
+			// empty invariant (everything the body may change is unknown afterwards). Sound, imprecise; its
+			// termination is not checked.
+			spec = &LoopSpec{}
+			x.noteAssumption(fmt.Sprintf("%s loop %d (executed in place, no annotation): cut with the empty invariant, termination not checked", fnKey(fr.fn), ld.ordinal))
+		}
 		if spec != nil && spec.Unroll > 0 || spec == nil && !isTop {
 			limit := 12
 			if spec != nil {
@@ -788,6 +797,65 @@ func (x *Exec) runBlock(st *State, b *ssa.BasicBlock, prev *ssa.BasicBlock) []Ou
 		}
 	}
 	return x.runInstrs(st, b, len(phis))
+}
+
+// noteLoopDone: the function under analysis leaves one of its loops through the loop's head (its condition
+// has become false, or the range is exhausted): post-conditions see this as loopdone_<k>. Any other way out
+// of the loop (a return or break from the body) leaves loopdone_<k> false.
+func (x *Exec) noteLoopDone(st *State, from, to *ssa.BasicBlock) {
+	fr := st.top()
+	if fr == nil || fr.depth != 0 {
+		return
+	}
+	if ld := x.loopInfoFor(fr.fn).byHead[from]; ld != nil && !ld.body[to] {
+		if st.loopDone == nil {
+			st.loopDone = map[int]bool{}
+		}
+		st.loopDone[ld.ordinal] = true
+		if st.exitMem == nil {
+			st.exitMem = map[int]map[string]*MemVer{}
+		}
+		st.exitMem[ld.ordinal] = snapshotMem(st)
+		// the loop-carried variables as they are when the loop is left: exit_<name> in post-conditions
+		for _, in := range from.Instrs {
+			phi, ok := in.(*ssa.Phi)
+			if !ok {
+				break
+			}
+			if phi.Comment == "" {
+				continue
+			}
+			if v, ok := st.env[phi]; ok {
+				if st.exitVals == nil {
+					st.exitVals = map[string]V{}
+				}
+				st.exitVals["exit_"+phi.Comment] = v
+			}
+		}
+	}
+}
+
+// constBoundLoop: the head of the loop compares against a small integer constant (such a loop is unrolled).
+func constBoundLoop(ld *loopDesc) bool {
+	for _, in := range ld.head.Instrs {
+		b, ok := in.(*ssa.BinOp)
+		if !ok {
+			continue
+		}
+		switch b.Op {
+		case token.LSS, token.LEQ, token.GTR, token.GEQ, token.NEQ:
+		default:
+			continue
+		}
+		for _, o := range []ssa.Value{b.X, b.Y} {
+			if c, ok := o.(*ssa.Const); ok && c.Value != nil && c.Value.Kind() == constant.Int {
+				if v, exact := constant.Int64Val(c.Value); exact && v >= -16 && v <= 16 {
+					return true
+				}
+			}
+		}
+	}
+	return false
 }
 
 // loopEnv builds the contract environment at a loop head.
@@ -931,6 +999,23 @@ func (x *Exec) checkLoop(st *State, fr *Frame, ld *loopDesc, spec *LoopSpec, ent
 		}
 		x.oblige(ps, name, "invariant", x.tagsOr(inv.Tags, fr), t, x.posOf(ld.pos), inv.Text)
 	}
+	if entry {
+		for i, ec := range spec.Entries {
+			name := x.oname(fr, fmt.Sprintf("loop%d.entry%d", ld.ordinal, i+1))
+			ps, penv := st, env
+			if fidx >= 0 {
+				ps = st.fork()
+				penv = x.loopEnv(ps, ps.frames[fidx], ld)
+				penv.prove = true
+			}
+			t, err := penv.evalBool(ec.Expr)
+			if err != nil {
+				x.genFail(name, "invariant", ec.Tags, x.posOf(ld.pos), err.Error())
+				continue
+			}
+			x.oblige(ps, name, "invariant", x.tagsOr(ec.Tags, fr), t, x.posOf(ld.pos), "when the loop is entered: "+ec.Text)
+		}
+	}
 	if !entry {
 		for i, sc := range spec.Steps {
 			name := x.oname(fr, fmt.Sprintf("loop%d.step%d", ld.ordinal, i+1))
@@ -990,6 +1075,9 @@ func (x *Exec) bindCallRecords(st *State, fn *ssa.Function, vars map[string]V, r
 	}
 	for n, rec := range recs {
 		vars["called_"+n] = vBool("true")
+		if rec.maybe != "" {
+			vars["called_"+n] = vBool(rec.maybe)
+		}
 		for i, a := range rec.args {
 			vars[fmt.Sprintf("call_%s_arg%d", n, i)] = a
 		}
@@ -1000,10 +1088,15 @@ func (x *Exec) bindCallRecords(st *State, fn *ssa.Function, vars map[string]V, r
 }
 
 func (x *Exec) calleeSigs(fn *ssa.Function) map[string]*types.Signature {
+	return x.calleeSigsRec(fn, map[*ssa.Function]bool{}, 0)
+}
+
+func (x *Exec) calleeSigsRec(fn *ssa.Function, seen map[*ssa.Function]bool, depth int) map[string]*types.Signature {
+	seen[fn] = true
 	out := map[string]*types.Signature{}
 	// the function literals of fn are executed in place: their callees count as fn's
 	for _, af := range fn.AnonFuncs {
-		for n, s := range x.calleeSigs(af) {
+		for n, s := range x.calleeSigsRec(af, seen, depth) {
 			out[n] = s
 		}
 	}
@@ -1022,6 +1115,14 @@ func (x *Exec) calleeSigs(fn *ssa.Function) map[string]*types.Signature {
 				}
 			} else if f := cc.StaticCallee(); f != nil {
 				out[shortCallName(fnKey(f))] = f.Signature
+				// a helper without a contract is executed in place: what it calls counts as fn's calls
+				if con, _ := x.contractFor(f); (con == nil || con.Inline) && len(f.Blocks) > 0 && !seen[f] && depth < 3 {
+					for n, s := range x.calleeSigsRec(f, seen, depth+1) {
+						if _, has := out[n]; !has {
+							out[n] = s
+						}
+					}
+				}
 			}
 		}
 	}
@@ -1059,7 +1160,7 @@ func (x *Exec) calleeShortNames(fn *ssa.Function) []string {
 // cutLoop havocs the loop-carried state and assumes the invariant.
 func (x *Exec) cutLoop(st *State, fr *Frame, ld *loopDesc, spec *LoopSpec, phis []*ssa.Phi) {
 	// dry run to learn which memories the body modifies
-	rec := &recorder{body: ld.body, mods: map[string]bool{}, fn: fr.fn, depth: fr.depth, startFresh: x.fresh}
+	rec := &recorder{body: ld.body, mods: map[string]bool{}, fn: fr.fn, depth: fr.depth, startFresh: x.fresh, calls: map[string]*types.Signature{}}
 	x.recStack = append(x.recStack, rec)
 	x.recording++
 	func() {
@@ -1084,6 +1185,43 @@ func (x *Exec) cutLoop(st *State, fr *Frame, ld *loopDesc, spec *LoopSpec, phis 
 	x.havocLoop(st, fr, ld, phis, rec.mods)
 	st.loopStores = nil
 	st.loopFresh = false
+	// what the iterations before this point called is not known: the record of every callee the body may
+	// call becomes "possibly called, with unknown arguments and results" (a callee called before the loop
+	// stays called). Without this a post-condition behind the loop would read "never called".
+	x.fresh++
+	{
+		names := make([]string, 0, len(rec.calls))
+		for n := range rec.calls {
+			names = append(names, n)
+		}
+		sort.Strings(names)
+		for _, n := range names {
+			sig := rec.calls[n]
+			ur := callRec{seq: x.fresh}
+			if _, was := fr.lastCall[n]; !was {
+				ur.maybe = st.freshConst("maybecalled_"+n, "Bool")
+			}
+			if sig.Recv() != nil {
+				ur.args = append(ur.args, st.symbolic(sig.Recv().Type(), "loopcall_"+n, nil, false))
+			}
+			for i := 0; i < sig.Params().Len(); i++ {
+				ur.args = append(ur.args, st.symbolic(sig.Params().At(i).Type(), "loopcall_"+n, nil, false))
+			}
+			for i := 0; i < sig.Results().Len(); i++ {
+				ur.results = append(ur.results, st.symbolic(sig.Results().At(i).Type(), "loopcall_"+n, nil, false))
+			}
+			for _, f := range st.frames {
+				if f.lastCall == nil {
+					f.lastCall = map[string]callRec{}
+				}
+				f.lastCall[n] = ur
+			}
+			if st.topCalls == nil {
+				st.topCalls = map[string]callRec{}
+			}
+			st.topCalls[n] = ur
+		}
+	}
 	x.fresh++
 	headSeq := x.fresh // step clauses speak about the calls of one iteration: those recorded after this point
 	env := x.loopEnv(st, fr, ld)
@@ -1365,10 +1503,12 @@ func (x *Exec) runInstrs(st *State, b *ssa.BasicBlock, idx int) []Outcome {
 					s1 = st.fork()
 				}
 				s1.assume(c.T)
+				x.noteLoopDone(s1, b, b.Succs[0])
 				outs = append(outs, x.runBlock(s1, b.Succs[0], b)...)
 			}
 			if c.T != "true" {
 				st.assume(not(c.T))
+				x.noteLoopDone(st, b, b.Succs[1])
 				outs = append(outs, x.runBlock(st, b.Succs[1], b)...)
 			}
 			return outs
@@ -1380,6 +1520,20 @@ func (x *Exec) runInstrs(st *State, b *ssa.BasicBlock, idx int) []Outcome {
 				rs = append(rs, st.operand(r))
 			}
 			x.pathID++
+			if fr.depth == 0 {
+				// the named locals of the function under analysis stay available to its post-conditions
+				st.exitNames = map[string]V{}
+				seen := map[string]int{}
+				for obj := range fr.names {
+					seen[obj.Name()]++
+				}
+				for obj, v := range fr.names {
+					if seen[obj.Name()] == 1 { // several variables of one name: ambiguous, not offered
+						st.exitNames[obj.Name()] = v
+					}
+				}
+				// the memory as it was when each loop was left is kept in st.exitMem (atexit(k, ...))
+			}
 			return []Outcome{{st: st, results: rs}}
 		case *ssa.Panic:
 			x.oblige(st, x.instrName(fr, in, "panic"), "panic", x.safetyTags(fr), "false", x.posOf(ins.Pos()), "explicit panic is unreachable")
@@ -1662,6 +1816,27 @@ func (x *Exec) binop(st *State, fr *Frame, ins *ssa.BinOp) V {
 		unsup("logical operator in SSA")
 	}
 	if isFloat(lt) {
+		toFP := func(v V) string {
+			if v.W == 32 {
+				return "((_ to_fp 8 24) " + v.T + ")"
+			}
+			return "((_ to_fp 11 53) " + v.T + ")"
+		}
+		switch op {
+		case token.LSS:
+			return vBool(st.define("cmp", "Bool", app("fp.lt", toFP(l), toFP(r))))
+		case token.LEQ:
+			return vBool(st.define("cmp", "Bool", app("fp.leq", toFP(l), toFP(r))))
+		case token.GTR:
+			return vBool(st.define("cmp", "Bool", app("fp.gt", toFP(l), toFP(r))))
+		case token.GEQ:
+			return vBool(st.define("cmp", "Bool", app("fp.geq", toFP(l), toFP(r))))
+		case token.ADD, token.SUB, token.MUL, token.QUO:
+			// arithmetic is a function of the operands, otherwise uninterpreted
+			name := fmt.Sprintf("f%s_%d", map[token.Token]string{token.ADD: "add", token.SUB: "sub", token.MUL: "mul", token.QUO: "div"}[op], l.W)
+			st.x.declareUF(name, []string{sortBV(l.W), sortBV(l.W)}, sortBV(l.W))
+			return vBV(st.define("fl", sortBV(l.W), app(name, l.T, r.T)), l.W, false)
+		}
 		unsup("floating point operator %s", op)
 	}
 	if isString(lt) {
@@ -1755,7 +1930,11 @@ func (x *Exec) valuesEqual(st *State, l, r V, lt, rt types.Type) string {
 		if rv, _, ok := litVal(r.T); ok && rv == 0 {
 			return eq(app("bvshl", l.T, bvLit(1, l.W)), bvLit(0, l.W))
 		}
-		unsup("floating point comparison with a non-zero operand")
+		// IEEE equality (NaN != NaN, +0 == -0)
+		if l.W == 32 {
+			return app("fp.eq", "((_ to_fp 8 24) "+l.T+")", "((_ to_fp 8 24) "+r.T+")")
+		}
+		return app("fp.eq", "((_ to_fp 11 53) "+l.T+")", "((_ to_fp 11 53) "+r.T+")")
 	}
 	if isString(lt) {
 		return x.stringsEqual(st, l, r)
@@ -2014,7 +2193,10 @@ func (x *Exec) indexAddr(st *State, fr *Frame, ins *ssa.IndexAddr) V {
 		// the bounds obligation above was assumed: 0 <= i < len < 2^40 from here on
 		st.markBounded(i64)
 	}
-	return vPtr(st.define("ia", sortBV(64), bvadd(ptr.T, off)), ptr.Prov)
+	ia := st.define("ia", sortBV(64), bvadd(ptr.T, off))
+	// the address of an element that exists (the index is in range) is not nil: Go's memory safety
+	st.assume(not(eq(ia, bvLit(0, 64))))
+	return vPtr(ia, ptr.Prov)
 }
 
 func goalIsConstTrue(i, ln string) bool {
@@ -2103,8 +2285,14 @@ func (x *Exec) slice(st *State, fr *Frame, ins *ssa.Slice) V {
 	off := lo
 	if es != 1 {
 		off = app("bvmul", lo, bvLit(es, 64))
+		if v, _, ok := litVal(lo); ok {
+			off = bvLit(v*es, 64)
+		}
 	}
 	np := vPtr(st.define("sp", sortBV(64), bvadd(ptr.T, off)), ptr.Prov)
+	if v, _, ok := litVal(off); ok && v == 0 {
+		np = vPtr(ptr.T, ptr.Prov) // s[0:...]: the same address
+	}
 	nl := vBV(st.define("sl", sortBV(64), bvsubw(hi, lo, 64)), 64, true)
 	if isStr {
 		return V{K: KTuple, Fs: []V{np, nl}, Typ: ins.Type()}
